@@ -156,6 +156,26 @@ inline void shape_into(ShapeBuilder &sb, int base, int n, int shape) {
             }
             break;
         }
+        case 13: {  // tree of blocks ("cactus with bridges"): the nodes of a random tree are single vertices or small cycles,
+                    // tree edges are bridges between them (feedback-vertex / 2-core structure: hubs joined by bridges to cycles)
+            int next = 0;
+            std::vector<int> rep;   // one attachment vertex per block
+            bool star = coin(35);   // star-like block tree: one hub with many neighbours
+            while (next < n) {
+                int kind = pick(0, 9);
+                int len = (kind < 4) ? 1 : (kind < 8 ? 3 : pick(4, 5));
+                if (next + len > n) len = 1;
+                int first = next;
+                if (len >= 3) for (int i = 0; i < len; i++) sb.add(V(first + i), V(first + (i + 1) % len));
+                next += len;
+                if (!rep.empty()) {
+                    int parent = star ? rep[0] : rep[pick(0, (int) rep.size() - 1)];
+                    sb.add(V(parent), V(first + (len > 1 ? pick(0, len - 1) : 0)));
+                }
+                rep.push_back(first + (len > 1 ? pick(0, len - 1) : 0));
+            }
+            break;
+        }
         case 11: {  // complete graph
             for (int i = 0; i < n; i++) for (int j = i + 1; j < n; j++) sb.add(V(i), V(j));
             break;
@@ -168,7 +188,7 @@ inline std::vector<double> gen_weights(int m, WDom dom, int tie_bias, bool int_s
     std::vector<double> w(m, 1.0);
     if (dom == WDom::Unit) return w;
     if (dom == WDom::Inexact) {
-        int pal = pick(0, 5);
+        int pal = pick(0, 6);
         static const double dec[] = {0.1, 0.2, 0.3, 0.7, 1.1, 0.4};
         double scale = 1.0;
         if (pal == 3) { static const double sc[] = {0.01, 0.1, 1, 10, 100}; scale = sc[pick(0, 4)]; }
@@ -180,6 +200,12 @@ inline std::vector<double> gen_weights(int m, WDom dom, int tie_bias, bool int_s
                 case 2: x = 0.01 * pick(1, 300); break;
                 case 3: x = dec[pick(0, 5)] * scale; break;
                 case 4: x = pick(1, 999) / 7.0; break;
+                case 6: {  // small integers, some of them off by a relative 1e-9 .. 2e-8: routes that differ by far more than
+                           // rounding noise but by little more than the property's 1e-9 tolerance
+                    x = (double) pick(1, 4);
+                    if (coin(40)) x *= 1.0 + pick(1, 20) * 1e-9;
+                    break;
+                }
                 default: {  // uniformly random doubles in [1e-3,1e3] (log-uniform mantissa mix)
                     double e = pick(-3000, 2999) / 1000.0;
                     x = std::pow(10.0, e);
@@ -328,7 +354,7 @@ inline GraphSpec gen_graph_raw(const GenOpts &o, WDom dom) {
         int remaining = total_n - base;
         if (remaining <= 0) break;
         int np = (p == parts - 1) ? remaining : pick(0, remaining);
-        static const int shape_tab[] = {0, 0, 0, 1, 1, 1, 1, 1, 2, 3, 3, 4, 4, 5, 5, 5, 6, 6, 7, 7, 8, 8, 9, 10, 10, 11, 11, 12, 12, 12};
+        static const int shape_tab[] = {0, 0, 0, 1, 1, 1, 1, 1, 2, 3, 3, 4, 4, 5, 5, 5, 6, 6, 7, 7, 8, 8, 9, 10, 10, 11, 11, 12, 12, 12, 13, 13, 13};
         int shape = shape_tab[pick(0, (int) (sizeof shape_tab / sizeof shape_tab[0]) - 1)];
         if (!o.dense_ok && (shape == 11)) shape = 0;
         shape_into(sb, base, np, shape);
